@@ -163,6 +163,13 @@ def slice_view(b, l, depth=0):
             if not proj:
                 return slice_view(b, pl['l'], depth + 1)
             flds = [e for e in proj if e['k'] == 'field']
+            if len(proj) == 1 and proj[0]['k'] == 'subslice':
+                # slice pattern `[first, rest @ ..]` / `[head @ .., last]`: rest = x[from .. len - to]
+                base = slice_view(b, pl['l'], depth + 1)
+                fr, to = proj[0].get('from', 0), proj[0].get('to', 0)
+                if proj[0].get('from_end'):
+                    return shift(base, fr, None) if to == 0 else None
+                return shift(base, fr, to)
             if len(proj) == 1 and flds:
                 # field of a tuple produced by split_at(k) (possibly handed on by whole moves: `let pair = helper()?`)
                 src = b.single_def(pl['l'])
